@@ -470,7 +470,7 @@ func c14Search(s *Search) {
 	s.Res.Stats["inputs_positions_sampled"] += sampled
 	s.Res.Exhaustive = sampled == 0 && s.More()
 	// random cases with the remaining budget (fault positions, chunkings and schedules drawn)
-	for i := uint64(0); s.More(); i++ {
+	for i := s.Base(); s.More(); i++ {
 		if !s.Mine(int(i)) {
 			continue
 		}
